@@ -44,4 +44,27 @@ func init() {
 		Rule: "one run = two real netpoll connections over one socket pair (default, 4 KB or 16 KB buffers); the sender submits 1..70000 bytes of a position-keyed stream through a seeded mix of Write / Malloc / WriteBinary / WriteString / WriteByte / WriteDirect / Append + Flush in seeded chunkings and then closes or not; the receiver is a reader task with a seeded mix and pace of Next/Peek+Skip/ReadBinary/ReadString/ReadByte/Slice/Read/Skip/Release or an OnRequest handler; kernel short writes/reads, send EAGAIN, epoll batch clipping and EINTR; non-trivial = more than 300 bytes; distinct = distinct step-trace hash",
 		Assume: []string{"one reader and one writer per connection", "AF_UNIX stream sockets on the real kernel (TCP not covered)", "the guarantee is checked up to the first reported write error"},
 		Real:   commonReal, Stub: commonStub})
+
+	addPlan(&propertyPlan{ID: "C13",
+		Scenarios: []scenarioPlan{{Name: "c13_server", Quick: 15000, Thorough: 600000}, {Name: "c05_teardown", Quick: 5000, Thorough: 200000}},
+		Rule: "one run = a real event loop serving a real AF_UNIX listener (netpoll's own listener type, or a net.Listener through ConvertListener) with 1-2 pollers; 1-6 raw clients that connect after a seeded delay, send 0-200 bytes and close at once / after sending / after a pause / when told; handlers that return, sleep (virtual) or wait on a gate; an optional EMFILE stretch on accept; Shutdown with a seeded virtual deadline at a seeded time; non-trivial = at least one connection was accepted; distinct = distinct step-trace hash",
+		Assume: []string{"handlers consume their input", "AF_UNIX stream sockets on the real kernel", "descriptor exhaustion is injected at accept/socket/epoll_create only"},
+		Real:   commonReal, Stub: commonStub})
+
+	addPlan(&propertyPlan{ID: "C15",
+		Scenarios: []scenarioPlan{{Name: "c15_errors", Quick: 15000, Thorough: 600000}, {Name: "c13_server", Quick: 6000, Thorough: 250000}, {Name: "c05_teardown", Quick: 6000, Thorough: 250000}, {Name: "c08_flush", Quick: 3000, Thorough: 100000}, {Name: "c07_reader", Quick: 3000, Thorough: 100000}, {Name: "c18_pool", Quick: 3000, Thorough: 100000}},
+		Rule: "descriptor ledger armed in every scenario: a descriptor becomes netpoll-owned when a netpoll system call creates it or when it is handed over (NewFDConnection, the listener duplicate) and returns to the harness at Detach; a close of a number that is not open or not owned, a harness-owned trip-wire (opened on the number netpoll just closed) found closed or replaced, or a netpoll-owned descriptor still open after every connection, listener and poller was closed is a violation; the dedicated scenario c15_errors strings together 1-5 error-path life cycles (refused dial, socket option failing after socket(), registration failing, poller creation failing half way, connections closed by either side, dialled and accepted connections); non-trivial = a connection or poller was created; distinct = distinct step-trace hash",
+		Assume: []string{"descriptors opened by the standard library on netpoll's behalf (the os.File of a converted net.Listener) are covered by the trip-wire and by an fstat census, not by the call ledger", "AF_UNIX sockets only"},
+		Real:   commonReal, Stub: commonStub})
+	addPlan(&propertyPlan{ID: "C18",
+		Scenarios: []scenarioPlan{{Name: "c18_pool", Quick: 20000, Thorough: 1000000}},
+		Rule: "one run = a fresh poller manager with 1-4 configured loops and 1-4 phases; in every phase 1-8 tasks call Pick 1-4 times concurrently (the first phase races the lazy initialisation); between phases SetNumLoops(1..4) and/or SetLoadBalance are applied while nothing is in flight; after each phase: every returned poller is open, the pool has exactly the configured number of pollers and epoll descriptors, round-robin counts differ by at most one, Trigger wakes every loop; non-trivial = more than one phase; distinct = distinct step-trace hash",
+		Assume: []string{"reconfiguration concurrent with Pick is outside the documented contract and is not generated"},
+		Real:   commonReal, Stub: commonStub})
+
+	addPlan(&propertyPlan{ID: "C14",
+		Scenarios: []scenarioPlan{{Name: "c14_dial", Quick: 20000, Thorough: 1000000}, {Name: "c15_errors", Quick: 4000, Thorough: 100000}},
+		Rule: "one run = 1-3 targets (TCP v4/v6 literal over the virtual TCP stub: accept after a virtual delay of 0..100ms, refuse, drop, accept-then-reset; unix: listening or absent) and 1-6 concurrent DialConnection calls with timeout 0/1/5/50ms; the connect completing and the timeout firing are both scheduler events; a returned connection must complete an echo round trip; non-trivial = every run; distinct = distinct step-trace hash",
+		Assume: []string{"the TCP handshake is a stub (vsys virtual TCP over AF_UNIX: EINPROGRESS, completion/refusal/silence after a virtual delay, SO_ERROR, deferred epoll registration); everything after the connect is the real kernel", "IP literals only (no DNS)", "an untimed dial into a black hole is not generated"},
+		Real:   commonReal, Stub: append(append([]string{}, commonStub...), "TCP three-way handshake (vsys virtual TCP)")})
 }
